@@ -573,6 +573,17 @@ func (u *terminal) Exec(ctx context.Context, qCtx *query_context.Context) error 
 		return nil
 	}
 	qCtx.SetResponse(buildAnswer(qCtx.Q(), u.script))
+	// what this upstream actually put into its answer's OPT: the model's upstream OPT right after this step must be
+	// exactly that (a response without OPT that replaces one with an OPT leaves NO upstream OPT behind)
+	cs.mu.Lock()
+	if t, ok := cs.traces[qCtx]; ok && !cs.quiet {
+		o := []string{"-"}
+		if !u.script.NoOpt {
+			o = append([]string{}, u.script.Opts...)
+		}
+		t.events = append(t.events, Event{"ev": "UpAns", "o": o})
+	}
+	cs.mu.Unlock()
 	return nil
 }
 
